@@ -3,7 +3,9 @@
    `feed` delivers a stream segment by segment.  For EVERY list of segments — cuts inside headers,
    inside bodies, one byte at a time, several PDUs in one segment — the frames recognised and the
    leftover are those of the whole stream: no byte is lost, duplicated or reordered. *)
-From PND Require Import Lib.Base Model.Provider Model.Framing Proofs.FramingProofs.
+From PND Require Import Lib.Base Model.Decoder Model.Fsm Model.Provider Model.Framing Model.Stream
+  Proofs.FramingProofs Proofs.StreamProofs
+  Model.Pdu Model.PduWf Spec.Ps38Layout Proofs.ConvProofs.
 
 Theorem C03_framing : forall segs : list bytes, feed [] segs = frames (concat segs).
 Proof. exact feed_any_partition. Qed.
@@ -19,3 +21,45 @@ Example C03_example :
   fst (feed [] [[5;0;0;0;0;4;0;0;0;0; 7;0;0;0;0;4;0;0;2;0; 6;0;0]; [0;0;4;0;0;0;0]])
   = [[5;0;0;0;0;4;0;0;0;0]; [7;0;0;0;0;4;0;0;2;0]; [6;0;0;0;0;4;0;0;0;0]].
 Proof. vm_compute. reflexivity. Qed.
+
+(* ---- the same for the provider run as a whole (Model.Provider.iter) ---------------------------------
+   Along EVERY script — segments of any size arriving at any iterations, interleaved with user
+   requests, clock ticks, the peer closing, kill — with `run_frames` the byte strings the loop hands
+   to the PDU decoders, `run_delivered` what the transport accepted from the peer, and `stream` what
+   the provider still holds (its buffer, then the transport's): *)
+
+(* no byte is lost, duplicated or reordered *)
+Theorem C03_provider_conserves : forall (env : denv) (ops : list op) (s : pstate),
+  concat (run_frames env s ops) ++ stream (fold_left (iter env) ops s) = stream s ++ run_delivered env s ops.
+Proof. exact stream_conserved. Qed.
+Print Assumptions C03_provider_conserves.
+
+(* the PDUs recognised are the PS3.8 frames of the delivered content, in order, whatever the cuts *)
+Theorem C03_provider_frames : forall (env : denv) (ops : list op) (s : pstate),
+  exists tl, fst (frames (stream s ++ run_delivered env s ops)) = run_frames env s ops ++ tl.
+Proof. exact frames_of_content. Qed.
+Print Assumptions C03_provider_frames.
+
+(* a PDU event reaches the state machine only from a recognised frame, and it is that frame's classification *)
+Theorem C03_provider_events : forall (env : denv) (s : pstate) (o : op),
+  match iter_frame s o with
+  | Some f => i_net (it_input (iter_parts env (apply_op s o) (is_kill o))) = fst (classify f)
+  | None => match i_net (it_input (iter_parts env (apply_op s o) (is_kill o))) with
+            | NPdu _ | NBad => False | _ => True end
+  end.
+Proof.
+  intros env s o. destruct (iter_frame s o) as [f|] eqn:E;
+    [exact (frame_classified env s o f E)|exact (no_frame_no_pdu env s o E)].
+Qed.
+Print Assumptions C03_provider_events.
+
+(* ---- composed with the codec (C01/C02): the byte stream of a conversation — ANY list of PDUs the
+   library can emit — cut by the transport into ANY segments is recognised as exactly those PDUs, with
+   nothing left over, and each decodes to the value that was encoded *)
+Theorem C03_conversation : forall (ps : list pdu) (segs : list bytes),
+  Forall (fun p => wf_pdu p = true /\ fixed_lens p = true) ps ->
+  concat segs = concat (map encode ps) ->
+  feed [] segs = (map encode ps, [])
+  /\ Forall2 (fun f p => decode_as (type_of p) f = Ok p) (map encode ps) ps.
+Proof. exact conversation_any_segmentation. Qed.
+Print Assumptions C03_conversation.
